@@ -105,23 +105,37 @@ end J2k
 
 namespace J2k
 /-- t2/packet_decoder.go collectCodeBlockEntries for the code-block at band offset `cbX0` of a band whose
-    resolution origin is `resX0` (precinct width `pw`, code-block width `cbw`): returns (px, cbxLocal) -/
+    resolution origin is `resX0` (precinct width `pw`, code-block width `cbw`): returns (px, cbxLocal).
+    Since fix 3981d09 the index in the first precinct column is relative to the first code-block of the band:
+    `if px == 0 { cbxLocal -= (resX0 - startX) / cbw }` -/
 def decCbIndex (resX0 cbX0 pw cbw : Int) : Int × Int :=
+  let startX := Gen.J2kT2.floorDiv resX0 pw * pw
+  let absResX0 := resX0 + cbX0
+  let px := Int.tdiv (absResX0 - startX) pw
+  let localX := absResX0 - (startX + px * pw)
+  let cbxLocal := Int.tdiv localX cbw
+  let cbxLocal := if px == 0 then cbxLocal - Int.tdiv (resX0 - startX) cbw else cbxLocal
+  (px, cbxLocal)
+
+/-- the decoder's shape before fix 3981d09 (regression example): counted from the precinct edge -/
+def decCbIndexOld (resX0 cbX0 pw cbw : Int) : Int × Int :=
   let startX := Gen.J2kT2.floorDiv resX0 pw * pw
   let absResX0 := resX0 + cbX0
   let px := Int.tdiv (absResX0 - startX) pw
   let localX := absResX0 - (startX + px * pw)
   (px, Int.tdiv localX cbw)
 
-/-- encoder.go buildTilePacketEncoder (since fix 104b234) for the same block: precinct index and grid position
-    from the canvas origin `originX` of the tile-component at this resolution:
-    `startX := (originX/pw)*pw; absX := originX + resX0; px := (absX-startX)/pw; localX := absX-(startX+px*pw); CBX = localX/cbw` -/
+/-- encoder.go buildTilePacketEncoder (since 104b234, 3981d09) for the same block: precinct index and grid position
+    from the canvas origin `originX` of the tile-component at this resolution, relative to the band's first block
+    in the first precinct column: `if px == 0 { CBX -= (originX - startX) / CodeBlockWidth }` -/
 def encCbIndex (originX cbX0 pw cbw : Int) : Int × Int :=
   let startX := Int.tdiv originX pw * pw
   let absX := originX + cbX0
   let px := Int.tdiv (absX - startX) pw
   let localX := absX - (startX + px * pw)
-  (px, Int.tdiv localX cbw)
+  let cbx := Int.tdiv localX cbw
+  let cbx := if px == 0 then cbx - Int.tdiv (originX - startX) cbw else cbx
+  (px, cbx)
 
 /-- the shape before fix 104b234 (kept for the regression example): tile-local, the origin never entered -/
 def encCbIndexOld (cbX0 pw cbw : Int) : Int × Int :=
